@@ -406,8 +406,13 @@ def run(prog, rep, tier):
     zkeys = set(e[0] for e in zmap["fields"]["entries"])
     buflen = None
     for p_, c in facts.consts.items():
-        if p_.endswith("::BUFLEN") and "captures_to_buffer" in p_ or p_.endswith("datetime::BUFLEN"):
-            buflen = c["value"]
+        if p_.endswith("::BUFLEN") and isinstance(c["value"], int) and "datetime" in p_:
+            buflen = c["value"] if buflen is None else min(buflen, c["value"])
+    if buflen is None:
+        raise CheckerError("converter buffer length constant not found")
+    # longest zone text that can be substituted: map values and the --tz-offset string (+HH:MM)
+    zone_max = max([len(e[1]) for e in zmap["fields"]["entries"]] + [6])
+    rep.examined(R42, "captures_to_buffer_bytes|buffer", sample={"BUFLEN": buflen, "longest_zone_text": zone_max})
     for r in res:
         i = r["id"]
         dtfs, k, h = meta[i]
@@ -451,6 +456,51 @@ def run(prog, rep, tier):
                 bad = [m for m in lang if m not in months]
                 if bad:
                     probs.append("month spellings %s can be captured but are not accepted by month_bB_to_month_m_bytes" % bad[:4])
+        # worst-case length of the normalised buffer against the converter's fixed buffer
+        if buflen is not None:
+            def gmax(name, default=None):
+                if name in g:
+                    return g[name]["max_len"]
+                return default
+            parts = []
+            unbounded = []
+            def add(label, n):
+                if n is None:
+                    unbounded.append(label)
+                else:
+                    parts.append((label, n))
+            if dtfs["epoch"] != "_none":
+                add("epoch", gmax("epoch"))
+            if dtfs["year"] in ("Y", "y"):
+                add("year", gmax("year"))
+            elif dtfs["year"] == "_fill":
+                add("year", max(4, gmax("year", 0) or 0))
+            if dtfs["month"] != "_none":
+                add("month", 2)
+            if dtfs["day"] != "_none":
+                add("day", 2)
+            add("T", 1)
+            if dtfs["hour"] in ("I", "l", "H"):
+                add("hour", gmax("hour"))
+            elif dtfs["hour"] == "k":
+                add("hour", 2)
+            if dtfs["minute"] != "_none":
+                add("minute", gmax("minute"))
+            if dtfs["second"] == "S":
+                add("second", gmax("second"))
+            elif dtfs["second"] == "_fill":
+                add("second", 2)
+            if dtfs["fractional"] == "f":
+                add("fraction", 10)
+            if dtfs["tz"] in ("z", "zc", "zp"):
+                add("tz", gmax("tz"))
+            elif dtfs["tz"] in ("Z", "_fill"):
+                add("tz", zone_max)
+            total = sum(n for _, n in parts)
+            if unbounded:
+                probs.append("groups %s have no upper length bound; the normalised timestamp can overflow the %d-byte buffer and panic" % (unbounded, buflen))
+            elif total > buflen:
+                probs.append("normalised timestamp can need %d bytes (%s), the buffer has %d; the copy would panic" % (total, parts, buflen))
         rep.examined(R42, key, sample={"row": i, "dtfs": dtfs, "needs": need, "has": sorted(g)})
         for pb in probs:
             rep.violation(R42, "row|%s|%s" % (rows[i]["fields"]["regex_pattern"][:60], pb[:40]), "DATETIME_PARSE_DATAS[%d] (source line %s): %s" % (i, line, pb))
@@ -460,7 +510,8 @@ def run(prog, rep, tier):
             if lang is None:
                 rep.violation(R43, "row|%s|tz" % rows[i]["fields"]["regex_pattern"][:60], "DATETIME_PARSE_DATAS[%d]: %%Z row whose tz group language is not finite" % i)
             else:
-                bad = [z for z in lang if z.upper() not in zkeys and z not in zkeys]
+                # the converter looks the captured text up as it is (get_entry, no case folding)
+                bad = [z for z in lang if z not in zkeys]
                 rep.examined(R43, key, sample={"row": i, "tz_names": len(lang), "unknown": bad[:4]})
                 if bad:
                     rep.violation(R43, "row|%s|tz" % rows[i]["fields"]["regex_pattern"][:60], "DATETIME_PARSE_DATAS[%d] (source line %s): zone names %s can be captured but are not in MAP_TZZ_TO_TZz" % (i, line, bad[:5]))
